@@ -82,7 +82,7 @@ def lean_const(v):
     raise Unsupported("constant %r" % (v,))
 
 
-EXC_MAP = {"ValueError": "valueError", "TypeError": "typeError", "KeyError": "keyError", "IndexError": "indexError"}
+EXC_MAP = {"ValueError": "valueError", "TypeError": "typeError", "KeyError": "keyError", "IndexError": "indexError", "AdbTimeoutError": "adbTimeout"}
 CMP = {ast.Eq: "Py.eqV", ast.NotEq: "Py.neV", ast.Is: "Py.isV", ast.IsNot: "Py.isNotV", ast.In: "Py.inV", ast.NotIn: "Py.notInV",
        ast.Lt: "Py.ltV", ast.LtE: "Py.leV", ast.Gt: "Py.gtV", ast.GtE: "Py.geV"}
 BIN = {ast.Add: "Py.add", ast.Sub: "Py.sub", ast.Mult: "Py.mul", ast.FloorDiv: "Py.floordiv", ast.Mod: "Py.mod", ast.BitAnd: "Py.bitand",
@@ -275,6 +275,10 @@ class FnTr(object):
             return self.bind("Py.getAttr %s %s" % (o, lean_str(e.attr)))
         if isinstance(e, ast.Subscript):
             if isinstance(e.slice, ast.Slice):
+                if e.slice.lower is not None and e.slice.upper is None and e.slice.step is None:
+                    c = self.expr(e.value)
+                    k = self.expr(e.slice.lower)
+                    return self.bind("Py.sliceFrom %s %s" % (c, k))
                 raise Unsupported("slice")
             c = self.expr(e.value)
             k = self.expr(e.slice)
@@ -591,6 +595,8 @@ class FnTr(object):
             name = None
             if isinstance(exc, ast.Call) and isinstance(exc.func, ast.Name):
                 name = exc.func.id
+            elif isinstance(exc, ast.Call) and isinstance(exc.func, ast.Attribute) and isinstance(exc.func.value, ast.Name) and exc.func.value.id == "exceptions":
+                name = exc.func.attr
             elif isinstance(exc, ast.Name):
                 name = exc.id
             if name not in EXC_MAP:
@@ -843,6 +849,101 @@ def alloc_id_snippet(open_fn):
     return None
 
 
+class _LoopRewrite(ast.NodeTransformer):
+    """Turns the body of a `while` loop into a function of the loop state and of the RESULTS of the effects it performs:
+    `self._transport.bulk_read/bulk_write(...)` -> parameter eff0, eff1, ... (their argument tuples are kept), `time.time()` -> parameter `now`,
+    `await x` -> x, logging statements dropped, `break` / `return v` / falling off the end -> `return ('break'|'return'|'continue', ...)`."""
+
+    def __init__(self, carried):
+        self.effects = []      # (param name, method name, [arg ASTs])
+        self.uses_now = False
+        self.carried = carried
+        self.depth = 0
+
+    def visit_Await(self, node):
+        return self.visit(node.value)
+
+    def visit_Call(self, node):
+        self.generic_visit(node)
+        f = node.func
+        if isinstance(f, ast.Attribute) and isinstance(f.value, ast.Attribute) and isinstance(f.value.value, ast.Name) and f.value.value.id == "self" \
+                and f.value.attr == "_transport" and f.attr in ("bulk_read", "bulk_write"):
+            name = "eff%d" % len(self.effects)
+            self.effects.append((name, f.attr, list(node.args)))
+            return ast.Name(id=name, ctx=ast.Load())
+        if isinstance(f, ast.Attribute) and isinstance(f.value, ast.Name) and f.value.id == "time" and f.attr == "time" and not node.args:
+            self.uses_now = True
+            return ast.Name(id="now", ctx=ast.Load())
+        return node
+
+    def visit_Expr(self, node):
+        v = node.value
+        if isinstance(v, ast.Await):
+            v = v.value
+        if isinstance(v, ast.Call) and isinstance(v.func, ast.Attribute) and isinstance(v.func.value, ast.Name) and v.func.value.id == "_LOGGER":
+            return ast.Pass()
+        self.generic_visit(node)
+        return node
+
+    def _tagged(self, tag, extra=None):
+        elts = [ast.Constant(value=tag)] + ([extra] if extra is not None else []) + [ast.Name(id=v, ctx=ast.Load()) for v in self.carried]
+        return ast.Return(value=ast.Tuple(elts=elts, ctx=ast.Load()))
+
+    def visit_Break(self, node):
+        return self._tagged("break")
+
+    def visit_Continue(self, node):
+        return self._tagged("continue")
+
+    def visit_Return(self, node):
+        self.generic_visit(node)
+        return self._tagged("return", node.value if node.value is not None else ast.Constant(value=None))
+
+    def visit_While(self, node):
+        raise Unsupported("nested loop")
+
+    def visit_For(self, node):
+        raise Unsupported("nested loop")
+
+
+def loop_iteration(fn_node):
+    """(cond function node, iteration function node, [effect-args function nodes], info) for a method whose body contains exactly one `while` loop at top level."""
+    body = strip_docstring(list(fn_node.body))
+    loops = [st for st in body if isinstance(st, ast.While)]
+    if len(loops) != 1 or loops[0].orelse:
+        raise Unsupported("expected exactly one top-level while loop")
+    loop = loops[0]
+    assigned = []
+    for n in ast.walk(ast.Module(body=loop.body, type_ignores=[])):
+        if isinstance(n, (ast.Assign, ast.AugAssign)):
+            for t in (n.targets if isinstance(n, ast.Assign) else [n.target]):
+                for x in (t.elts if isinstance(t, ast.Tuple) else [t]):
+                    if isinstance(x, ast.Name) and x.id not in assigned:
+                        assigned.append(x.id)
+    import copy as _copy
+    rw = _LoopRewrite(sorted(assigned))
+    new_body = [rw.visit(_copy.deepcopy(st)) for st in loop.body]
+    new_body = [st for st in new_body if st is not None]
+    new_body.append(rw._tagged("continue"))
+    # free variables of the loop (read before being assigned in an iteration): parameters of the iteration function
+    reads = []
+    for n in ast.walk(ast.Module(body=[ast.Expr(value=loop.test)] + new_body, type_ignores=[])):
+        if isinstance(n, ast.Name) and isinstance(n.ctx, ast.Load) and n.id not in reads:
+            reads.append(n.id)
+    eff_names = [e[0] for e in rw.effects]
+    state = sorted(v for v in reads if v not in eff_names and v != "now" and v not in ("True", "False", "None") and not v.isupper() and v not in ("len", "bytes", "bytearray", "min", "exceptions", "constants"))
+    params = state + eff_names + (["now"] if rw.uses_now else [])
+
+    def mk(name, ps, b):
+        return ast.FunctionDef(name=name, args=ast.arguments(posonlyargs=[], args=[ast.arg(arg=p) for p in ps], kwonlyargs=[], kw_defaults=[], defaults=[]), body=b, decorator_list=[])
+    cond = mk(fn_node.name + "__cond", state, [ast.Return(value=_copy.deepcopy(loop.test))])
+    it = mk(fn_node.name + "__iter", params, new_body)
+    effs = []
+    for name, meth, args in rw.effects:
+        effs.append(mk("%s__%s_args" % (fn_node.name, name), state, [ast.Return(value=ast.Tuple(elts=[ast.Constant(value=meth)] + [_copy.deepcopy(a) for a in args], ctx=ast.Load()))]))
+    return cond, it, effs, dict(state=state, carried=sorted(assigned), effects=[(n, m) for n, m, _ in rw.effects])
+
+
 def build_units(repo):
     sys.path.insert(0, repo)
     import importlib
@@ -906,6 +1007,23 @@ def build_units(repo):
         with open(os.path.join(repo, "adb_shell", fname)) as f:
             tree = ast.parse(f.read())
         u = Unit(consts)
+        for mgr in ("_AdbIOManager", "_AdbIOManagerAsync"):
+            mc = find_class(tree, mgr)
+            if mc is None:
+                continue
+            for m in methods_of(mc):
+                if m.name in ("_read_bytes_from_device", "_write_all"):
+                    tag = "%s_%s" % (cls, m.name.strip("_"))
+                    try:
+                        cond, it, effs, info = loop_iteration(m)
+                        for node, suffix in [(cond, "cond"), (it, "iter")] + [(e, e.name.split("__")[-1]) for e in effs]:
+                            u.add_function("", node, lean="%s_%s" % (tag, suffix), params=[a.arg for a in node.args.args])
+                        u.loop_info = getattr(u, "loop_info", {})
+                        u.loop_info[tag] = info
+                    except Unsupported as exc:
+                        node = ast.FunctionDef(name=tag + "_iter", args=ast.arguments(posonlyargs=[], args=[], kwonlyargs=[], kw_defaults=[], defaults=[]),
+                                               body=[ast.Global(names=["loop_not_extractable: %s" % str(exc)[:80].replace(" ", "_")])], decorator_list=[])
+                        u.add_function("", node, lean=tag + "_iter", params=[])
         c = find_class(tree, cls)
         if c is not None:
             for m in methods_of(c):
